@@ -851,6 +851,12 @@ def jobs_C13(rng, tier):
             L = scale_n(tier, 400, 1500)
             xs = gen.stream(rng, "dyadic1024", L, positive=True)
             js.append(SpecEq(e, xs, acc=nm == "wroll", mode="f", rel=1e-7))
+    # "without the error growing beyond rounding noise": a quiet series at a high level (2^20 … 2^30, steps of 1/64) in f64 against
+    # the exact run — Welford's recurrence keeps the spread there, a sum of squares minus the square of the mean does not
+    # (wave-5 seed C13e)
+    for _ in range(scale_n(tier, 6, 30)):
+        xs = [abs(x) for x in gen.stream(rng, "level", rng.choice([60, 400, 2000]), 4)]
+        js.append(FpTrack(mk("wroll", ECHO, []), xs, 1e-5, max(float(max(xs) - min(xs)), 1 / 64), fam="level"))   # scale: the spread
     return js
 
 
